@@ -27,6 +27,7 @@ const unknownVersion = "Unknown Snoop Format Version"
 const unkownLinkType = "Unknown Link Type"
 const originalLenExceeded = "Capture length exceeds original packet length"
 const captureLenExceeded = "Capture length exceeds max capture length"
+const recordLenExceeded = "Capture length exceeds packet record length"
 
 type snoopHeader struct {
 	Version  uint32
@@ -127,7 +128,8 @@ func (r *SnoopReader) readPacketHeader() (ci gopacket.CaptureInfo, err error) {
 	ci.Timestamp = time.Unix(int64(binary.BigEndian.Uint32(r.buf[16:20])), int64(binary.BigEndian.Uint32(r.buf[20:24])*1000)).UTC()
 	ci.Length = int(binary.BigEndian.Uint32(r.buf[0:4]))
 	ci.CaptureLength = int(binary.BigEndian.Uint32(r.buf[4:8]))
-	r.pad = int(binary.BigEndian.Uint32(r.buf[8:12])) - (24 + ci.Length)
+	// the packet record consists of the header, the captured data, and the pad
+	r.pad = int(binary.BigEndian.Uint32(r.buf[8:12])) - (24 + ci.CaptureLength)
 
 	if ci.CaptureLength > ci.Length {
 		err = errors.New(originalLenExceeded)
@@ -136,9 +138,26 @@ func (r *SnoopReader) readPacketHeader() (ci gopacket.CaptureInfo, err error) {
 
 	if ci.CaptureLength > maxCaptureLen {
 		err = errors.New(captureLenExceeded)
+		return
+	}
+
+	if r.pad < 0 {
+		err = errors.New(recordLenExceeded)
 	}
 
 	return
+}
+
+// discardPad skips the pad, which follows the packet data. Its length is not limited by the file format, so it is not read into the packet buffer.
+func (r *SnoopReader) discardPad() error {
+	if r.pad == 0 {
+		return nil
+	}
+	_, err := io.CopyN(io.Discard, r.r, int64(r.pad))
+	if err == io.EOF {
+		return io.ErrUnexpectedEOF
+	}
+	return err
 }
 
 // ReadPacketData reads next packet data.
@@ -146,9 +165,12 @@ func (r *SnoopReader) ReadPacketData() (data []byte, ci gopacket.CaptureInfo, er
 	if ci, err = r.readPacketHeader(); err != nil {
 		return
 	}
-	data = make([]byte, ci.CaptureLength+r.pad)
-	_, err = io.ReadFull(r.r, data)
-	return data[:ci.CaptureLength], ci, err
+	data = make([]byte, ci.CaptureLength)
+	if _, err = io.ReadFull(r.r, data); err != nil {
+		return data, ci, err
+	}
+	err = r.discardPad()
+	return data, ci, err
 
 }
 
@@ -162,9 +184,13 @@ func (r *SnoopReader) ZeroCopyReadPacketData() (data []byte, ci gopacket.Capture
 		return
 	}
 
-	if cap(r.packetBuf) < ci.CaptureLength+r.pad {
-		r.packetBuf = make([]byte, ci.CaptureLength+r.pad)
+	if cap(r.packetBuf) < ci.CaptureLength {
+		r.packetBuf = make([]byte, ci.CaptureLength)
 	}
-	_, err = io.ReadFull(r.r, r.packetBuf[:ci.CaptureLength+r.pad])
-	return r.packetBuf[:ci.CaptureLength], ci, err
+	data = r.packetBuf[:ci.CaptureLength]
+	if _, err = io.ReadFull(r.r, data); err != nil {
+		return data, ci, err
+	}
+	err = r.discardPad()
+	return data, ci, err
 }
